@@ -64,7 +64,12 @@ fn main() {
       body_max: rng.urange(3, 9),
       multi_text_p: 0.05,
     };
-    let corpus = scoring::gen_corpus(rng, &cfg);
+    let mut corpus = scoring::gen_corpus(rng, &cfg);
+    if !cfg.dirty && rng.chance(0.4) {
+      // length-skewed family: long documents, a few very short ones at the end of each commit
+      scoring::add_length_skew(rng, &mut corpus, &cfg.vocab);
+      l.count("corpora_length_skewed", 1);
+    }
     let dir = scratch.join("i");
     let built = match vcore::ctx::catch(|| scoring::build(&dir, &corpus)) {
       Ok(Ok(b)) => b,
